@@ -3956,9 +3956,16 @@ func (d *jsonDecDriverBytes) dblQuoteStringAsBytes() (buf []byte, usingBuf bool)
 	checkUtf8 := d.h.ValidateUnicode
 	usingBuf = true
 
+	var hi rune
+
 	for {
 
 		c = d.r.readn1()
+
+		if hi != 0 && c != 'u' {
+			buf = d.appendStringAsBytesLoneSurrogate(buf, checkUtf8)
+			hi = 0
+		}
 
 		switch c {
 		case '"', '\\', '/', '\'':
@@ -3974,7 +3981,15 @@ func (d *jsonDecDriverBytes) dblQuoteStringAsBytes() (buf []byte, usingBuf bool)
 		case 't':
 			buf = append(buf, '\t')
 		case 'u':
-			rr := d.appendStringAsBytesSlashU()
+			rr := rune(jsonSlashURune(d.r.readn4()))
+			if hi != 0 {
+
+				rr = utf16.DecodeRune(hi, rr)
+				hi = 0
+			} else if utf16.IsSurrogate(rr) {
+				hi = rr
+				break
+			}
 			if checkUtf8 && rr == unicode.ReplacementChar {
 				d.buf = buf
 				halt.errorBytes("invalid UTF-8 character found after: ", buf)
@@ -3986,6 +4001,10 @@ func (d *jsonDecDriverBytes) dblQuoteStringAsBytes() (buf []byte, usingBuf bool)
 		}
 
 		bs, c = d.r.jsonReadAsisChars()
+		if hi != 0 && (len(bs) != 0 || c == '"') {
+			buf = d.appendStringAsBytesLoneSurrogate(buf, checkUtf8)
+			hi = 0
+		}
 		buf = append(buf, bs...)
 		if c == '"' {
 			break
@@ -3995,25 +4014,12 @@ func (d *jsonDecDriverBytes) dblQuoteStringAsBytes() (buf []byte, usingBuf bool)
 	return
 }
 
-func (d *jsonDecDriverBytes) appendStringAsBytesSlashU() (r rune) {
-	var rr uint32
-	cs := d.r.readn4()
-	if rr = jsonSlashURune(cs); rr == unicode.ReplacementChar {
-		return unicode.ReplacementChar
+func (d *jsonDecDriverBytes) appendStringAsBytesLoneSurrogate(buf []byte, checkUtf8 bool) []byte {
+	if checkUtf8 {
+		d.buf = buf
+		halt.errorBytes("invalid UTF-8 character found after: ", buf)
 	}
-	r = rune(rr)
-	if utf16.IsSurrogate(r) {
-		csu := d.r.readn2()
-		cs = d.r.readn4()
-		if csu[0] == '\\' && csu[1] == 'u' {
-			if rr = jsonSlashURune(cs); rr == unicode.ReplacementChar {
-				return unicode.ReplacementChar
-			}
-			return utf16.DecodeRune(r, rune(rr))
-		}
-		return unicode.ReplacementChar
-	}
-	return
+	return append(buf, d.bstr[:utf8.EncodeRune(d.bstr[:], unicode.ReplacementChar)]...)
 }
 
 func (d *jsonDecDriverBytes) DecodeNaked() {
@@ -8114,9 +8120,16 @@ func (d *jsonDecDriverIO) dblQuoteStringAsBytes() (buf []byte, usingBuf bool) {
 	checkUtf8 := d.h.ValidateUnicode
 	usingBuf = true
 
+	var hi rune
+
 	for {
 
 		c = d.r.readn1()
+
+		if hi != 0 && c != 'u' {
+			buf = d.appendStringAsBytesLoneSurrogate(buf, checkUtf8)
+			hi = 0
+		}
 
 		switch c {
 		case '"', '\\', '/', '\'':
@@ -8132,7 +8145,15 @@ func (d *jsonDecDriverIO) dblQuoteStringAsBytes() (buf []byte, usingBuf bool) {
 		case 't':
 			buf = append(buf, '\t')
 		case 'u':
-			rr := d.appendStringAsBytesSlashU()
+			rr := rune(jsonSlashURune(d.r.readn4()))
+			if hi != 0 {
+
+				rr = utf16.DecodeRune(hi, rr)
+				hi = 0
+			} else if utf16.IsSurrogate(rr) {
+				hi = rr
+				break
+			}
 			if checkUtf8 && rr == unicode.ReplacementChar {
 				d.buf = buf
 				halt.errorBytes("invalid UTF-8 character found after: ", buf)
@@ -8144,6 +8165,10 @@ func (d *jsonDecDriverIO) dblQuoteStringAsBytes() (buf []byte, usingBuf bool) {
 		}
 
 		bs, c = d.r.jsonReadAsisChars()
+		if hi != 0 && (len(bs) != 0 || c == '"') {
+			buf = d.appendStringAsBytesLoneSurrogate(buf, checkUtf8)
+			hi = 0
+		}
 		buf = append(buf, bs...)
 		if c == '"' {
 			break
@@ -8153,25 +8178,12 @@ func (d *jsonDecDriverIO) dblQuoteStringAsBytes() (buf []byte, usingBuf bool) {
 	return
 }
 
-func (d *jsonDecDriverIO) appendStringAsBytesSlashU() (r rune) {
-	var rr uint32
-	cs := d.r.readn4()
-	if rr = jsonSlashURune(cs); rr == unicode.ReplacementChar {
-		return unicode.ReplacementChar
+func (d *jsonDecDriverIO) appendStringAsBytesLoneSurrogate(buf []byte, checkUtf8 bool) []byte {
+	if checkUtf8 {
+		d.buf = buf
+		halt.errorBytes("invalid UTF-8 character found after: ", buf)
 	}
-	r = rune(rr)
-	if utf16.IsSurrogate(r) {
-		csu := d.r.readn2()
-		cs = d.r.readn4()
-		if csu[0] == '\\' && csu[1] == 'u' {
-			if rr = jsonSlashURune(cs); rr == unicode.ReplacementChar {
-				return unicode.ReplacementChar
-			}
-			return utf16.DecodeRune(r, rune(rr))
-		}
-		return unicode.ReplacementChar
-	}
-	return
+	return append(buf, d.bstr[:utf8.EncodeRune(d.bstr[:], unicode.ReplacementChar)]...)
 }
 
 func (d *jsonDecDriverIO) DecodeNaked() {
